@@ -23,7 +23,8 @@ fn run(s: &mut Session, c: &str) -> (Stop, Vec<Ev>) {
     let mark = s.mark();
     s.enter(c);
     let mut used = 0;
-    let stop = drain_with_replies(s, &[], &mut used, 4_000);
+    let budget = if s.quantum < 100 { 60_000 } else { 4_000 };
+    let stop = drain_with_replies(s, &[], &mut used, budget);
     (stop, s.events_since(mark).to_vec())
 }
 
@@ -193,6 +194,9 @@ impl Prop for C19 {
         let text = format!("{}\n{}", lines.join("\n"), cmd);
         mon::journal(&text);
         let mut s = typed(&lines);
+        // the front end may hand out the instruction budget in any slices: the gate must hold for each
+        s.quantum = *rng.pick(&[1usize, 1, 2, 3, 4, 5, 7, 12, 5000, 5000, 5000, 5000]);
+        let text = format!("{}\n(execute({}) slices)", text, s.quantum);
         let listing = s.listing_text();
         let (st, evs) = run(&mut s, &cmd);
         if st != Stop::Stopped {
